@@ -426,6 +426,10 @@ def r02_5(prog, out):
             n += 1
             s = sl.of(bid, t.args[1])
             key = "ack-caller:%s" % prog.short(bid)
+            from common import skipped_only_when_empty
+            sk = skipped_only_when_empty(prog, bi, bb, t.args[1])
+            if sk is not None:
+                out.violation(key + ":applied", bi.loc(sk[0]), "acknowledgements: " + sk[1])
             if "crate::api::parser::parse_ack_id" in s.calls:
                 out.holds(key, bi.loc(bb), "ids come from the ack-id parser")
             elif any(f == A.cell("PulledMessage", "ack_id") or f[1] == "ack_id" for f in s.fields) or A.ty("PulledMessage") + "::ack_id" in s.calls:
